@@ -103,10 +103,12 @@ def simple_body(cname, free_idx, quat):
 
 
 def planarity_body(H, V):
-    """Quadrilateral with one vertex lifted off the plane by h (size ~5): |h| >= 0.05*1 % margin semantics below."""
+    """Quadrilateral (size 5 s) with its last vertex lifted off the plane of the first three by h s, at any scale s in
+    [1e-6, 1e3] and any offset within about nine diameters: accepted => |h| < 1 % of the size; rejected => not planar."""
     import coxeter.shapes as S
 
-    h = V["h"]
+    h, sc = V["h"], V["s"]
+    t = [V["tx"], V["ty"], V["tz"]]
     base = [(0, 0, 0), (4, 0, 0), (5, 3, 0), (1, 4, 0)]
     R = O.rot_from_quat(1, 2, 2, 0)
     P = []
@@ -115,14 +117,14 @@ def planarity_body(H, V):
         if i == 3:
             q = [q[0], q[1], h]
         q = O.matvec(R, q)
-        P.append([q[0] + 1, q[1] + 2, q[2] - 3])
+        P.append([sc * (q[k] + 5 * t[k]) for k in range(3)])
     try:
         S.Polygon(H.arr(P), test_simple=False)
         accepted = True
     except ValueError:
         accepted = False
     if accepted:
-        H.claim("accepted=>nearly_planar", H.and_(h < F(1, 20), h > -F(1, 20)))  # 1 % of the size (5)
+        H.claim("accepted=>nearly_planar", H.and_(h < F(1, 20), h > -F(1, 20)))  # 1 % of the size
     else:
         H.claim("rejected=>off_plane", h != 0)
 
@@ -365,8 +367,11 @@ def obligations(tier, seed):
             nm, ["px", "py"], simple_body(cname, fi, quat), pre=box, first_sample=fs, functions=fn_s, max_paths=(40 if tier == "quick" else 300),
             budget_s=(200 if tier == "quick" else 1500), stubs=["kabsch contract stub"],
             bounds="cycle %s with vertex %d free in [-8,8]^2, plane %s; real Bentley-Ottmann sweep; margin %s on orientation products; path budget" % (cname, fi, quat, MARGIN)))))
-    obs.append(("C15/Polygon.planarity", lambda: run_e2("C15/Polygon.planarity", ["h"], planarity_body, first_sample=dict(h=F(1, 3)), functions=functions_encoded([S.Polygon.__init__]),
-                                                         bounds="tilted quadrilateral (size 5) with one vertex displaced by a free h along the normal")))
+    obs.append(("C15/Polygon.planarity", lambda: run_e2(
+        "C15/Polygon.planarity", ["h", "s", "tx", "ty", "tz"], planarity_body, first_sample=dict(h=F(1, 3), s=F(1), tx=F(1, 5), ty=F(2, 5), tz=F(-3, 5)), positive=["s"],
+        pre=lambda V: [V["s"] >= F(1, 10**6), V["s"] <= 1000] + [c for k in ("tx", "ty", "tz") for c in (V[k] >= -5, V[k] <= 5)],
+        functions=functions_encoded([S.Polygon.__init__]), max_paths=(24 if tier == "quick" else 120),
+        bounds="tilted quadrilateral of size 5 s with one vertex displaced by h s along the normal: h free, scale s in [1e-6, 1e3], offset within [-25 s, 25 s]^3 (about nine diameters)")))
     for cls in ("ConvexPolygon", "ConvexSpheropolygon", "ConvexPolyhedron"):
         names = ["px", "py"] + (["pz"] if cls == "ConvexPolyhedron" else [])
         nm = "C15/%s.extra_point" % cls
